@@ -18,7 +18,7 @@ theorem RawB_congr {t : Table} {cert : RCert} {m m' : M κ} (h : RawB t cert m) 
   rw [this, hS]
   exact h3
 
-/-- token-part invariant of the parser between `parse` calls / loop iterations -/
+/-- raw-range invariant of the parser between `parse` calls / loop iterations -/
 def PRaw (t : Table) (cert : RCert) (p : Parser κ) : Prop := RawB t cert (p.machine false)
 
 /-- a machine freshly loaded at a text state is accounted for by the certificate -/
